@@ -355,4 +355,15 @@ example :
     pathFormLookup E "Cell".toList (some (.tapp (.tstruct "Cell".toList) [.prim .bool])) "describe".toList = some (.constr "Cell".toList) := by
   decide
 
+/-- the constructor name of a type is its RESOLVED name: inside package `Lib` the path written `Cell`
+denotes `Lib::Cell`.  `pathFormLookup` must be given the resolved name — with the written one the
+receiver is not recognised and the lookup falls back to the bare constructor (here: nothing at all),
+which is the seeded change `C17-path-form-written-name` -/
+example :
+    let cellInt : Ty := .tapp (.tstruct "Lib::Cell".toList) [.prim .int32]
+    let E : InhEnv := { exact := [(cellInt, ["describe".toList])], constr := [("Lib::Cell".toList, ["describe".toList])] }
+    pathFormLookup E "Lib::Cell".toList (some cellInt) "describe".toList = dotFormLookup E cellInt "describe".toList ∧
+    pathFormLookup E "Cell".toList (some cellInt) "describe".toList ≠ dotFormLookup E cellInt "describe".toList := by
+  decide
+
 end Goml.Mangle
